@@ -46,7 +46,7 @@ racts = strip_comments(section("with run_racts (v : vm) (last : rres) (l : racts
 out = []
 for pat, rhs in arms(act):
     c = pat.split()[0]
-    if c in {"ACall", "ACallNative", "ARust"}:
+    if c in {"ACall", "ACallNative", "ARust", "ANew"}:
         out.append("Lemma run_act_%s_eq fx v %s :\n  run_act fx v (%s) =\n  (%s).\nProof. reflexivity. Qed.\n" % (c, " ".join(pat.split()[1:]), pat, fxify(rhs.strip())))
 for pat, rhs in arms(acts):
     c = pat.split()[0]
